@@ -129,9 +129,15 @@ func soundFor(line string, key ssh.PublicKey) (declared, exact bool) {
 func TestC38(t *testing.T) {
 	m := mon.New(t, "C38")
 	defer m.Done()
-	m.Rule("pool per process = Go-made public keys (ed25519, ecdsa 256/384/521 from seeded scalars, RSA moduli of 1024..16384 bits with e in {3,5,17,257,65537,2^24-1}, DSA-shaped numbers), hand-built sk-ecdsa/sk-ed25519 blobs, ssh-keygen-made keys (ed25519, ecdsa 256/384/521, rsa 1024/2048/3072[/4096], dsa) and certificates over them issued by ssh.Certificate.SignCert and by ssh-keygen -s (user/host, options, 3 CA types). key case = one pool key through ParsePublicKey/Marshal/MarshalAuthorizedKey/ParseAuthorizedKey/Fingerprint*, compared with an independent encoder/decoder (h/ref/sshkeyfmt), ssh-keygen -l (-E sha256|md5) reading the package's output, and ssh-keygen -e -m PKCS8 (numbers via OpenSSL's DER). file case = authorized_keys file of 1..10 generated lines (plain / options with quotes, escaped quotes, commas, blanks, '=' / type mismatch / blank, comment, one token / unterminated quote / bad or truncated base64 / unknown type / single-edit mutants and oddities), outcome known by construction and cross-checked with the sshd(8) reference grammar (h/ref/authkeysref) and with ssh-keygen -l on every 16th (thorough: 64th) file; ParseAuthorizedKey is called until it fails, every return is located by its rest. known_hosts case likewise (markers, host lists, comments of 0..n words). fuzz case = random bytes and edited blobs/lines into all three parsers. distinct key = (stream, class, key family, outcome)")
+	m.Rule("pool per process = Go-made public keys (ed25519, ecdsa 256/384/521 from seeded scalars, RSA moduli of 1024..16384 bits with e in {3,5,17,257,65537,2^24-1}, DSA-shaped numbers), hand-built sk-ecdsa/sk-ed25519 blobs, ssh-keygen-made keys (ed25519, ecdsa 256/384/521, rsa 1024/2048/3072[/4096], dsa) and certificates over them issued by ssh.Certificate.SignCert and by ssh-keygen -s (user/host, options, 3 CA types). key case = one pool key through ParsePublicKey/Marshal/MarshalAuthorizedKey/ParseAuthorizedKey/Fingerprint*, compared with an independent encoder/decoder (h/ref/sshkeyfmt), ssh-keygen -l (-E sha256|md5) reading the package's output, and ssh-keygen -e -m PKCS8 (numbers via OpenSSL's DER). file case = authorized_keys file of 1..10 generated lines (plain / options with quotes, escaped quotes, commas, blanks, '=' / type mismatch / blank, comment, one token / unterminated quote / bad or truncated base64 / unknown type / single-edit mutants and oddities), outcome known by construction and cross-checked with the sshd(8) reference grammar (h/ref/authkeysref) and with ssh-keygen -l on every 16th (thorough: 64th) file; ParseAuthorizedKey is called until it fails, every return is located by its rest. known_hosts case likewise (markers, host lists, comments of 0..n words). fuzz case = random bytes and edited blobs/lines into all three parsers. concurrency case = one parsed PublicKey of every type (plain, sk-, certificate; two per case) used by 4..8 goroutines at once for Verify (valid and invalid)/Marshal/Type/FingerprintSHA256/FingerprintLegacyMD5/MarshalAuthorizedKey, and ParsePublicKey/ParseAuthorizedKey/ParseKnownHosts called at once on one shared read-only input and on one distinct input per goroutine; expectations precomputed single-threaded from the references, barrier start, judged after join, every 4th case on a single P with yields; also built with -race (that variant runs only these streams). distinct key = (stream, class, key family, outcome)")
 	m.Assume("ssh-keygen 9.2 is the format witness; h/ref/sshkeyfmt (own RFC 4253/5656 codec, unit-tested elsewhere) and h/ref/authkeysref (sshd(8) text, unit-tested on the manual's examples) are the references; ssh-keygen-made key material is not determined by the seed (witnesses carry the lines)")
 	m.Assume("readings accepted: ssh-keygen prints a certificate's fingerprint as that of the certified key, the package hashes Marshal() (both accepted for certificates; the certified key's fingerprint is judged); lines outside the sshd(8) grammar (empty option specs, short type names, CR inside a line, known_hosts comments of several words, unknown markers) may be accepted or skipped but must never yield a key the line does not announce")
+
+	if mon.RaceBuild {
+		// race-detector variant: only the shared-value concurrency streams
+		concStreams38(m)
+		return
+	}
 
 	p, err := buildPool(m)
 	if err != nil {
@@ -150,6 +156,8 @@ func TestC38(t *testing.T) {
 	m.Cases("authfile", m.N(4000, 250000), func(i int64, r *rand.Rand) { authFileCase(m, p, i, r) })
 	m.Cases("hostsfile", m.N(2500, 120000), func(i int64, r *rand.Rand) { hostsFileCase(m, p, i, r) })
 	m.Cases("fuzz", m.N(16000, 1000000), func(i int64, r *rand.Rand) { fuzzCase(m, p, i, r) })
+
+	concStreams38(m)
 
 	nb := m.NBatch()
 	m.Gate("key_roundtrips", 40*nb, "pool keys through ParsePublicKey/Marshal/MarshalAuthorizedKey/ParseAuthorizedKey")
